@@ -709,6 +709,59 @@ def _alternatives(word: str) -> List[str]:
     return sorted(set(outs))
 
 
+def _fold_version_test(test: ast.AST, v: int) -> Optional[bool]:
+    """Truth of a test that only compares self._version with constants, for
+    protocol version v; None when it depends on anything else."""
+    if isinstance(test, ast.Compare) and len(test.ops) == 1 and \
+            dotted(test.left) == 'self._version' and \
+            isinstance(test.comparators[0], ast.Constant) and \
+            isinstance(test.comparators[0].value, int):
+        c = test.comparators[0].value
+        op = test.ops[0]
+        return {ast.Lt: v < c, ast.LtE: v <= c, ast.Gt: v > c,
+                ast.GtE: v >= c, ast.Eq: v == c,
+                ast.NotEq: v != c}.get(type(op))
+    if isinstance(test, ast.UnaryOp) and isinstance(test.op, ast.Not):
+        r = _fold_version_test(test.operand, v)
+        return None if r is None else not r
+    if isinstance(test, ast.BoolOp):
+        vals = [_fold_version_test(x, v) for x in test.values]
+        if isinstance(test.op, ast.And):
+            if any(x is False for x in vals):
+                return False
+            return True if all(x is True for x in vals) else None
+        if any(x is True for x in vals):
+            return True
+        return False if all(x is False for x in vals) else None
+    return None
+
+
+def _specialise(stmts: List[ast.stmt], v: int) -> List[ast.stmt]:
+    """The statement list as it behaves on a session of version v: `if`
+    statements whose test only looks at the version are resolved."""
+    import copy as _copy
+    out: List[ast.stmt] = []
+    for st in stmts:
+        if isinstance(st, ast.If):
+            r = _fold_version_test(st.test, v)
+            if r is True:
+                out += _specialise(st.body, v)
+                continue
+            if r is False:
+                out += _specialise(st.orelse, v)
+                continue
+        if isinstance(st, (ast.If, ast.For, ast.AsyncFor, ast.While,
+                           ast.With, ast.AsyncWith, ast.Try)):
+            new = _copy.copy(st)
+            for fld in ('body', 'orelse', 'finalbody'):
+                if getattr(st, fld, None):
+                    setattr(new, fld, _specialise(getattr(st, fld), v))
+            out.append(new)
+        else:
+            out.append(st)
+    return out
+
+
 def requests(k: Kit) -> None:
     rep = k.rep
     n = 0
@@ -747,6 +800,42 @@ def requests(k: Kit) -> None:
                       f'client writes `{w or "(empty)"}`, server reads the same',
                       f'{meth}: client writes `{w}` but the server reads '
                       f'`{rw_body}`', cf.loc(cf.node))
+        # the same comparison for each protocol version, with the version
+        # tests of both sides resolved: a field one side sends from v5 on
+        # must be read from v5 on by the other
+        for v in (3, 4, 5, 6):
+            cbody = _specialise(cf.node.body, v)
+            sbody = _specialise(sf.node.body, v)
+            vwords = set()
+            for st in cbody:
+                for c in ast.walk(st):
+                    if is_call(c, '_make_request', 'self') and c.args:
+                        a0 = c.args[0]
+                        cn = dotted(a0) if not isinstance(a0, ast.Constant) \
+                            else a0.value
+                        if cn == const:
+                            vwords.add(_canon(writer_word(c.args[1:])))
+            if not vwords:
+                continue
+            vr = _canon(reader_word(sbody))
+            vbody = _canon(vr.replace('[.]', '').replace(' .', '')
+                           .replace('.', ''))
+            valts = _alternatives(vbody)
+            for w in vwords:
+                if '?' in w:
+                    pre = _canon(w.split('?')[0])
+                    okv = any((a + ' ').startswith(pre + ' ') or a == pre
+                              for a in valts)
+                else:
+                    okv = w in valts
+                rep.check(okv, 'C14.R4',
+                          f'request {meth} → {handler} at v{v}',
+                          f'v{v}: client writes `{w or "(empty)"}`, server '
+                          'reads the same',
+                          f'{meth} on an SFTPv{v} session: the client writes '
+                          f'`{w}` but the server reads `{vbody}` (the two '
+                          'sides gate an optional field on different '
+                          'versions)', cf.loc(cf.node))
     rep.floor('C14.R4', 'request bodies compared', n, 30)
 
 
@@ -868,6 +957,57 @@ def r6(k: Kit) -> None:
               'are sent', f'{bad}', fi.loc(fi.node))
 
 
+def r7(k: Kit) -> None:
+    """Client: a reply of the wrong kind is not taken for success."""
+    from ..absint import evaluate, NotEvaluable, Obj
+    rep = k.rep
+    idx = k.idx
+    rep.rule('C14.R7', 'SFTPClientHandler._make_request: the reply-type test '
+             'evaluated for every request kind (status-only, HANDLE, DATA, '
+             'NAME, ATTRS, EXTENDED_REPLY) x every reply type incl. an '
+             'unknown one: a reply is processed iff it is FXP_STATUS or the '
+             'type the request expects, otherwise SFTPBadMessage')
+    fi = k.func(CLI + '_make_request')
+    C = lambda n_: idx.const('sftp', n_)
+    types = {n_: C(n_) for n_ in ('FXP_STATUS', 'FXP_HANDLE', 'FXP_DATA',
+                                  'FXP_NAME', 'FXP_ATTRS',
+                                  'FXP_EXTENDED_REPLY')}
+    test = None
+    for st in fi.node.body:
+        if isinstance(st, ast.If) and 'resptype' in names_read(st.test) and \
+                any(isinstance(x, ast.Raise) for x in ast.walk(st)):
+            test = st
+    if test is None or any(not isinstance(v, int) for v in types.values()):
+        rep.error('C14.R7', key(fi, 'reply type test'), 'reply-type test or '
+                  'constants not found')
+        return
+    bad = None
+    n = 0
+    for rt in [None] + [v for kk, v in types.items() if kk != 'FXP_STATUS']:
+        for resp in list(types.values()) + [127]:
+            n += 1
+            try:
+                o = evaluate(idx, fi.module, [test], {},
+                             {'resptype': resp, 'return_type': rt},
+                             lambda a, b, e: Obj('x'))
+            except NotEvaluable as exc:
+                rep.error('C14.R7', 'not-evaluable', str(exc))
+                return
+            rejected = o.kind == 'raise'
+            want = resp not in (types['FXP_STATUS'], rt)
+            if rejected != want:
+                bad = bad or (
+                    f'request expecting {"status only" if rt is None else rt}'
+                    f', reply type {resp}: '
+                    + ('accepted - a HANDLE / DATA / NAME reply to a '
+                       'status-only request (write, remove, rename, ...) is '
+                       'taken for success' if want else 'rejected'))
+    rep.count('eval.reply_type_cases', n)
+    rep.check(bad is None, 'C14.R7', key(fi, 'reply type table'),
+              f'{n} (expected, received) pairs decided correctly', str(bad),
+              fi.loc(test))
+
+
 def run(idx, rep, tier):
     k = Kit(idx, rep)
     rep.assumptions += NOT_DECIDED
@@ -877,3 +1017,4 @@ def run(idx, rep, tier):
     r4(k)
     r5(k)
     r6(k)
+    r7(k)
